@@ -427,7 +427,12 @@ where
                 where
                     E: de::Error,
                 {
-                    humantime::parse_duration(v).map(S).map_err(E::custom)
+                    // humantime adds the terms up with unchecked arithmetic at the very top
+                    // of the range ("18446744073709551615s 1000ms" panics in Duration::new)
+                    std::panic::catch_unwind(|| humantime::parse_duration(v))
+                        .map_err(|_| E::custom("duration out of range"))?
+                        .map(S)
+                        .map_err(E::custom)
                 }
             }
 
